@@ -13,7 +13,8 @@ def check(run):
                      "lock is free and unpoisoned in every final state, the context equals the denotation at the fault point; the real evaluator is run on each and afterwards the same context is "
                      "used again (set / get / a fresh evaluation), an evaluation runs on another thread, a registration is made, and all five global mutexes are probed; the dispatch configurations of C08 (a name bound in the context, globally, both, as a variable, a built-in shadowed or replaced) with the fault at the first and second invocation; non-trivial = the fault fired")
     run.rules.append("leg T: random programs with random fault positions, same follow-ups, validated by TLC")
-    ef.eval_model_and_replay(run, "faults-d1", ef.mceval_cfg("c15-d1", depth=1, full_faults=True), "C15", sample_filter=faulted)
+    # (the second pass runs every case through execute(text) on a second handle of the context: a panic must still reach the caller as an unwind there)
+    ef.eval_model_and_replay(run, "faults-d1", ef.mceval_cfg("c15-d1", depth=1, full_faults=True), "C15", acts=[None, "noop+text"], sample_filter=faulted)
     ef.eval_model_and_replay(run, "faults-d2", ef.mceval_cfg("c15-d2", depth=2, full_faults=True, modes=("bare",) if not thorough else ("call", "bare", "mixed")), "C15", sample_filter=faulted)
     # a failing context function must not fall through to a registered function of the same name (nor a failing global to anything else)
     ef.eval_model_and_replay(run, "dispatch", ef.mceval_cfg("c15-dispatch", family="dispatch"), "C15", sample_filter=faulted)
